@@ -212,7 +212,11 @@ def sim_configs(ctx):
         ("two", dict(HookKey="<<1, 1>>", HookKinds="<<<<4>>, <<3, 4>>>>", HookEps="<<<<1>>, <<2, 1>>>>", NEps=2,
                      FailModes='{"refuse", "5xx"}', MaxFlips=5, MaxPokes=1, Prog=seq(seq(*[SET(1)] * 5)))),
         ("keys", dict(HookKey="<<1, 2>>", HookKinds="<<<<3, 4>>, <<4>>>>", HookEps="<<<<1>>, <<2>>>>", NEps=2, NKeys=2,
-                      FailModes='{"hang", "5xx", "refuse"}', MaxFlips=4, Prog=seq(seq(*[SET(0)] * 5)))),
+                      FailModes='{"5xx", "refuse"}', MaxFlips=4, Prog=seq(seq(*[SET(0)] * 5)))),
+        # hang (no answer until the client's 5 s timeout) only with a single hook: while the harness waits for the retry after
+        # a hang, requests of other hooks would be held beyond their own timeout
+        ("hang", dict(HookKey="<<1>>", HookKinds="<<<<3, 4>>>>", HookEps="<<<<1, 2>>>>", NEps=2, FailModes='{"hang", "5xx"}', MaxFlips=3,
+                      Prog=seq(seq(*[SET(1)] * 3)))),
     ]
     cfgs.append(("redef", dict(HookKey="<<1>>", HookKinds="<<<<4>>>>", HookEps="<<<<1>>>>", NEps=1, FailModes='{"refuse", "5xx"}', MaxFlips=3,
                                MaxReplace=1, Prog=w4)))
@@ -220,7 +224,7 @@ def sim_configs(ctx):
         cfgs.append(("ttl", dict(HookKey="<<1>>", HookKinds="<<<<4>>>>", HookEps="<<<<1>>>>", NEps=1, FailModes='{"refuse"}', MaxFlips=3,
                                  TTL=3, MaxClock=4, Prog=seq(seq(*[SET(1)] * 4)))))
         cfgs.append(("three", dict(HookKey="<<1, 1, 2>>", HookKinds="<<<<4>>, <<3, 4>>, <<3, 4>>>>", HookEps="<<<<1>>, <<2, 1>>, <<2>>>>",
-                                   NEps=2, NKeys=2, FailModes='{"refuse", "5xx", "hang"}', MaxFlips=6, MaxPokes=2,
+                                   NEps=2, NKeys=2, FailModes='{"refuse", "5xx"}', MaxFlips=6, MaxPokes=2,
                                    Prog=seq(seq(*[SET(0)] * 7)))))
     return cfgs
 
@@ -299,7 +303,7 @@ def select(ctx, files, want, max_cost, max_hang_behaviours, required):
                 if line.strip():
                     b = json.loads(line)
                     ft, cost, hangs = features(b)
-                    if cost <= max_cost:
+                    if cost <= max_cost or (b.get("maxclock", 0) > 0 and cost - 12.0 * b.get("clock", 0) <= 6):
                         cands.append((line.strip(), ft, cost, hangs, name))
     rng.shuffle(cands)
     chosen, covered, nhang = [], set(), 0
@@ -590,8 +594,9 @@ def run(ctx):
     ctx.log("TLC NotifySim: %d behaviours generated from %d configurations (%.0fs since start)" % (ngen, len(sims), time.time() - t0))
     required = list(REQUIRED)
     if not ctx.quick:
-        required += ["res:hang", "tick", "dropped_by_retention"]
-    chosen, covered = select(ctx, files, ctx.pick(36, 420), ctx.pick(6.5, 70.0), ctx.pick(3, 60), required)
+        required += ["tick", "dropped_by_retention"]
+    required += ["res:hang"]
+    chosen, covered = select(ctx, files, ctx.pick(36, 420), ctx.pick(6.5, 12.0), ctx.pick(3, 40), required)
     st, js = replay(ctx, [c[0] for c in chosen], "scripts", par=ctx.pick(PAR, "16"))
     ctx.log("replay: %d behaviours, %d events, %d attempts compared with TLC's (%s), %d hooks judged at quiescence (%d messages), "
             "%d refused attempts observed, %d mid-batch failures, %d failover deliveries, %d hangs, %d not judged (slow), "
@@ -619,8 +624,8 @@ def run(ctx):
 def rest(ctx, st, chosen, covered, res, intended, refuted, taken, sims, ngen):
     nburst = live_burst(ctx)
     summ, recs, nm2, tlines, tr = concurrent_legs(ctx, [
-        ("faults", ctx.pick(8, 90), ctx.seed, ["-ops", ctx.pick("24", "30")]),
-        ("nofaults", ctx.pick(8, 90), ctx.seed + 1000, ["-faults=false", "-pace", "1ms", "-writers", "5", "-ops", ctx.pick("24", "40")])])
+        ("faults", ctx.pick(8, 70), ctx.seed, ["-ops", ctx.pick("24", "30")]),
+        ("nofaults", ctx.pick(8, 70), ctx.seed + 1000, ["-faults=false", "-pace", "1ms", "-writers", "5", "-ops", ctx.pick("24", "40")])])
     cj, cj2 = recs[0][2], recs[1][2]
     ctx.log("concurrent runs: %d + %d recorded (%d too slow), %d streams with %d items judged by NotifyTrace, %d rejected; "
             "%d requests answered 503, %d + %d failure windows"
